@@ -159,6 +159,25 @@ let () =
       let rows = get_rows (fun c -> c.c_v) sh in
       "rows " ^ String.concat ";" (List.map (fun r -> String.concat "," (List.map hex_of_bytes r)) rows))
 
+(* ---- C16 sheet collection ---- *)
+let parse_wop (tok : string) : wop =
+  match String.split_on_char ',' tok with
+  | ["N"; n] -> WNew (bytes_of_hex n)
+  | ["D"; n] -> WDelete (bytes_of_hex n)
+  | ["M"; a; b] -> WMove (bytes_of_hex a, bytes_of_hex b)
+  | ["R"; a; b] -> WRename (bytes_of_hex a, bytes_of_hex b)
+  | ["V"; n; v; h] -> WVisible (bytes_of_hex n, bool_of_arg v, bool_of_arg h)
+  | ["A"; i] -> WActive (z_of_string i)
+  | ["C"; a; b] -> WCopy (z_of_string a, z_of_string b)
+  | ["T"; n] -> WTouch (bytes_of_hex n)
+  | _ -> failwith ("bad wop " ^ tok)
+
+let () =
+  reg "c16.run" (fun a ->
+      let wb = wrun (List.map parse_wop a) init_wb in
+      let sh = List.map (fun s -> hex_of_bytes s.w_name ^ ":" ^ string_of_z s.w_id ^ ":" ^ (if s.w_state = Z0 then "v" else "h") ^ ":" ^ string_of_z s.w_content) wb.sheets in
+      "active=" ^ string_of_z (active_index wb) ^ " " ^ String.concat " " sh ^ " consistent=" ^ str_bool (consistent wb))
+
 let () =
   try
     while true do
